@@ -252,7 +252,7 @@ func init() {
 		DesignRef: "DESIGN.md 3.7, 3.8, 4 C06",
 		LevelText: "For every arm of every generated decoder (checked-in and regenerated corpus): every access to the input and every cursor update is one of a closed set of guarded forms whose guards are required verbatim and in order (varint reader with cursor>=l and shift>=64 guards; fixed read behind (cursor+k)>l; payload slice only after len<0, end<0 (overflow) and end>l; Skip block with err, negative/overflow and bound guards; last-element access only right after an append); each form preserves 0 <= cursor <= l, so no index or slice expression can be out of range for any byte string; every loop consumes >= 1 byte per iteration (tag reader first; Skip returns >= 1, decided on Skip itself), so decoding terminates; no panic call or unchecked assertion exists in a decoder; allocations are sized by guarded ints bounded by the remaining input (capacity hints <= payload length). The nesting budget is carried: every decoder returns an error when input.Depth <= 0 before reading anything (DEC.depth) and hands nested decodes a RecursionLimit that the checker evaluates to be non-zero and strictly smaller than input.Depth (OPTS.depth), so nesting deeper than the budget of the outermost call is rejected. Accepted messages are safe to read: no nil message pointer is planted (DEC.mapdefault; F6, fixed) and read accessors do not dereference nil (NIL.recv; F7, fixed); and they are safe to marshal: every size contribution equals the encoded length of the same field (SIZE.count, with Sov/Soz/EncodeVarint decided on the bit-length domain), so the back-filling encoder never runs out of buffer. Not decided: stack depth in bytes, wall-clock or allocator behaviour as quantities.",
 		Engines:      E{codec.RunDec, codec.RunSkip, codec.RunOpts, refl.RunNil, codec.RunSize, codec.RunEnc, lib.RunVarint},
-		RulePrefixes: []string{"BND", "DEC.walk", "DEC.frame", "DEC.mapdefault", "DEC.depth", "OPTS.depth", "L.skip", "NIL.recv", "NIL.wrap", "SIZE.count", "SIZE.walk", "ENC.walk", "ENC.frame", "L.sov", "L.soz", "L.encvarint", "L.anchor", "G.model", "G.anchor", "GEN.build"},
+		RulePrefixes: []string{"BND", "DEC.walk", "DEC.frame", "DEC.mapdefault", "DEC.depth", "OPTS.depth", "L.skip", "NIL.recv", "NIL.wrap", "SIZE.count", "SIZE.walk", "ENC.walk", "ENC.frame", "L.sov", "L.soz", "L.encvarint", "L.anchor", "G.model", "G.anchor", "GEN.build", "UNK.default"},
 		Floors: []core.Floor{
 			{Rule: "BND.macro", Min: 400, Why: "decode arms"},
 			{Rule: "BND.nopanic", Min: 50, Why: "message types"},
